@@ -1,7 +1,163 @@
 import TTV.Model.ConcSuite
 import TTV.Spec.C13
-/-! # C13 — concurrent suites (theorems: in progress) -/
+import TTV.Lemmas.ConcSuite
+import TTV.Props.C12
+/-! # C13 — concurrent suites run every test once, deliver every event, and terminate
+
+Property theorems for `ConcurrentTestSuite.run` / `ConcurrentStreamTestSuite.run` (model
+`TTV/Model/ConcSuite.lean`).  All statements are for **every** number of workers, every worker program,
+every fault plan (worker-side faults, `make_tests` failing after `k`, an interrupt at any `queue.get()`,
+the caller's result raising at any call) and every schedule (arbitrary `List Nat`, no bound).
+The invariants they rest on are in `TTV/Lemmas/ConcSuite.lean` (`QInv`, `BI`, `RInv`, `SInv`, `FInv`, each
+preserved by every step of the machine).
+-/
 namespace TTV.Props.C13
 open TTV.Conc TTV.Spec.C13
+
+/-! ## the final state -/
+
+theorem final_done (i : SInput) : (finalC i).mpc = .done ∧ unfinished (finalC i) = [] := by
+  have := finalC_finished i
+  simp only [finishedC, Bool.and_eq_true, beq_iff_eq, List.isEmpty_iff] at this
+  exact this
+
+theorem final_workerDone (i : SInput) {w : Nat} (hw : w < (finalC i).nsp) : (finalC i).base.pcs[w + 1]? = some [] := by
+  have := workerDone_of_unfinished_nil (final_done i).2 hw
+  simpa [workerDone] using this
+
+theorem nsp_le_n (i : SInput) : (finalC i).nsp ≤ i.workers.length :=
+  Nat.le_trans (QInv_final i).nsp_le (spawnCount_le i)
+
+/-- at the end the log consists of whole sections only; main's are its `stop()` sections, a started
+worker's are exactly those of its program, other threads have none -/
+theorem final_log (i : SInput) : ∃ closed, (finalC i).base.log = flatLog closed
+    ∧ (∀ p ∈ closed, p.1 < i.workers.length + 1)
+    ∧ ownedBy 0 closed = (finalC i).msecs
+    ∧ ∀ w, w < i.workers.length →
+        ownedBy (w + 1) closed = if w < (finalC i).nsp then secsC i (finalC i).msecs (w + 1) else [] := by
+  obtain ⟨closed, cur, todo, rem, hb⟩ := BI_final i
+  obtain ⟨hdone, _⟩ := final_done i
+  have hidle := hb.main_idle (by simp [hdone])
+  have hsem : (finalC i).base.sem = none := by
+    cases hs : (finalC i).base.sem with
+    | none => rfl
+    | some k =>
+      exfalso
+      obtain ⟨_, hpc⟩ := hb.inv.ins k hs
+      rcases hb.holder k hs with h0 | hlive
+      · subst h0; rw [hidle] at hpc; cases todo <;> simp [callSteps] at hpc
+      · have hk : k = (k - 1) + 1 := by
+          rcases Nat.eq_zero_or_pos k with h0 | h0
+          · subst h0; rw [hidle] at hpc; cases todo <;> simp [callSteps] at hpc
+          · omega
+        rw [hk, final_workerDone i hlive] at hpc
+        cases todo <;> simp [callSteps] at hpc
+  refine ⟨closed, by simpa [hsem, openLog] using hb.inv.log_eq, hb.inv.owners, ?_, ?_⟩
+  · have hout := hb.inv.out 0 (by omega) (by simp [hsem])
+    rw [hidle] at hout
+    have hrem := segSteps_eq_nil (Option.some.inj hout).symm
+    have := hb.inv.acct 0 (by omega)
+    simpa [hsem, hrem, segSecs, secsC] using this.symm
+  · intro w hw
+    split
+    · rename_i hlt
+      have hout := hb.inv.out (w + 1) (by omega) (by simp [hsem])
+      rw [final_workerDone i hlt] at hout
+      have hrem := segSteps_eq_nil (Option.some.inj hout).symm
+      have := hb.inv.acct (w + 1) (by omega)
+      simpa [hsem, hrem, segSecs] using this.symm
+    · rename_i hge
+      simp only [ownedBy, List.map_eq_nil_iff, List.filter_eq_nil_iff]
+      intro p hp
+      rcases hb.owners_live p hp with h0 | h1
+      · simp [h0]
+      · simp only [beq_iff_eq]; intro hc; omega
+
+/-! ## sections of worker programs are well shaped -/
+
+theorem sectionsAbort_shape (f : List Nat) : ∀ (ops : List Op) (l : Loc), ∀ s ∈ (sectionsAbort f l ops).1, Spec.C12.shapeOk s = true
+  | [], _, s, h => by simp [sectionsAbort] at h
+  | o :: os, l, s, h => by
+      simp only [sectionsAbort] at h
+      have hsh : ∀ s', (stepOp f l o).sec = some s' → Spec.C12.shapeOk s' = true := by
+        intro s' hs'
+        rcases TTV.Props.C12.stepOp_sec_cases f l o with ⟨h1, _⟩ | ⟨c, r, h1, _⟩ | ⟨k, id, s'', _, h1, h2, _, _⟩
+        · rw [h1] at hs'; cases hs'
+        · rw [h1] at hs'; cases hs'; simp [Spec.C12.shapeOk]
+        · rw [h1] at hs'; cases hs'; exact h2
+      split at h
+      · cases hsec : (stepOp f l o).sec with
+        | none => simp [hsec] at h
+        | some s' => simp [hsec] at h; rw [h]; exact hsh s' hsec
+      · cases hsec : (stepOp f l o).sec with
+        | none => simp [hsec] at h; exact sectionsAbort_shape f os _ s h
+        | some s' =>
+          simp [hsec] at h
+          rcases h with rfl | h
+          · exact hsh s hsec
+          · exact sectionsAbort_shape f os _ s h
+
+theorem segSecs_append (a b : List Seg) : segSecs (a ++ b) = segSecs a ++ segSecs b := by
+  induction a with
+  | nil => rfl
+  | cons x a ih => cases x <;> simp [segSecs, ih]
+
+theorem suiteProg_secs (wi : Nat) (w : Worker) :
+    segSecs (suiteProg wi w).segs =
+      (sectionsAbort w.faults {} (testsOps 0 w.tests)).1 ++
+        (if (sectionsAbort w.faults {} (testsOps 0 w.tests)).2.2 || w.boom
+         then (sectionsAbort w.faults (sectionsAbort w.faults {} (testsOps 0 w.tests)).2.1 brokenOps).1 else []) := by
+  unfold suiteProg
+  dsimp only
+  split <;> simp [segSecs_append, segSecs_map_sec, segSecs]
+
+theorem streamProg_secs (wi tb : Nat) (w : Worker) : segSecs (streamProg wi tb w).segs = [] := by
+  unfold streamProg
+  have : ∀ l : List SEv, segSecs (l.map fun e => Seg.put (.status e)) = [] := by
+    intro l; induction l with
+    | nil => rfl
+    | cons a l ih => simpa [segSecs] using ih
+  simp [segSecs, segSecs_append, this]
+
+theorem progOf_secs_shape (i : SInput) (wi : Nat) (w : Worker) : ∀ s ∈ segSecs (progOf i wi w).segs, Spec.C12.shapeOk s = true := by
+  intro s hs
+  unfold progOf at hs
+  split at hs
+  · rw [suiteProg_secs] at hs
+    rcases List.mem_append.mp hs with hs | hs
+    · exact sectionsAbort_shape _ _ _ s hs
+    · split at hs
+      · exact sectionsAbort_shape _ _ _ s hs
+      · cases hs
+  · rw [streamProg_secs] at hs; cases hs
+
+theorem stopSections_all (mf : List Nat) : ∀ (n k : Nat), ∀ s ∈ stopSections mf k n, ∃ r, s = [(Call.ctl .stop, r)]
+  | 0, _, s, h => by simp [stopSections] at h
+  | n + 1, k, s, h => by
+      simp only [stopSections] at h
+      split at h
+      · simp at h; exact ⟨true, h⟩
+      · rcases List.mem_cons.mp h with rfl | h
+        · exact ⟨false, rfl⟩
+        · exact stopSections_all mf n (k + 1) s h
+
+/-- the stop sections main may have: none, or those of its abort path -/
+theorem final_msecs (i : SInput) : ∀ s ∈ (finalC i).msecs, ∃ r, s = [(Call.ctl .stop, r)] := by
+  have hr := RInv_final i
+  obtain ⟨hdone, _⟩ := final_done i
+  cases hres : (finalC i).result with
+  | none => have := hr.r_done.mp hdone; simp [hres] at this
+  | some r =>
+    cases r with
+    | returned =>
+      have := (hr.r_clean (by simp [hdone]) (Or.inr hres)).1
+      intro s hs; rw [this] at hs; cases hs
+    | raised c =>
+      cases hf : i.flavour with
+      | suite =>
+        have := hr.r_msecs (Or.inr ⟨c, hres⟩) hf
+        rw [this]; exact stopSections_all _ _ _
+      | stream =>
+        intro s hs; rw [msecs_stream_nil i hf] at hs; cases hs
 
 end TTV.Props.C13
